@@ -27,8 +27,110 @@ verus! {
 //@@ subst \b(Self|Uint)::(ZERO|ONE|MAX|BITS|LOG2_BITS)\b(?!\() => \1::\2()
 //@@ subst \bUint::<(\w+)>::(ZERO|ONE|MAX|BITS)\b(?!\() => Uint::<\1>::\2()
 //@@ fn src/uint/mul.rs | impl<const LIMBS: usize, const WIDE_LIMBS: usize> Uint<LIMBS> where Self: Concat<Output = Uint<WIDE_LIMBS>>, | square | body | props C03 C08 C11
+impl<const LIMBS: usize, const WIDE_LIMBS: usize> Uint<LIMBS> where Self: Concat<Output = Uint<WIDE_LIMBS>>, {
+pub const fn square(&self) -> (ret__: Uint<WIDE_LIMBS>)
+//@+
+    requires LIMBS >= 1, 2 * LIMBS <= usize::MAX
+    ensures WIDE_LIMBS == 2 * LIMBS ==> ret__.v() == self.v() * self.v()
+//@-
+{
+        let (lo, hi) = self.square_wide();
+        lo.concat(&hi)
+    }
+}
 //@@ end
 //@@ fn src/modular/monty_form.rs | impl<const LIMBS: usize, const WIDE_LIMBS: usize> MontyParams<LIMBS> where Uint<LIMBS>: Concat<Output = Uint<WIDE_LIMBS>>, Uint<WIDE_LIMBS>: Split<Output = Uint<LIMBS>>, | new | body | props C08 C11
+impl<const LIMBS: usize, const WIDE_LIMBS: usize> MontyParams<LIMBS> where Uint<LIMBS>: Concat<Output = Uint<WIDE_LIMBS>>, Uint<WIDE_LIMBS>: Split<Output = Uint<LIMBS>>, {
+pub const fn new(modulus: Odd<Uint<LIMBS>>) -> (ret__: Self)
+//@+
+    requires LIMBS < 0x200_0000, WIDE_LIMBS == 2 * LIMBS, modulus.0.v() % 2 == 1
+    ensures params_for(ret__, modulus), ret__.modulus == modulus, ret__.wf_rest(),
+        modulus.0.v() != 1 ==> ret__.wf(),
+        // the code yields one == 1 (not R mod m == 0) for the modulus 1: see FINDING in the header of l6_montyform
+        modulus.0.v() == 1 ==> ret__.one.v() == 1
+//@-
+{
+//@+
+    let ghost n = LIMBS as nat;
+    let ghost m = modulus.0.v();
+    let ghost r = bp(LIMBS as nat);
+    proof {
+        if LIMBS == 0 { assert(val(modulus.0.limbs@, 0) == 0); }
+        lemma_val_bound(modulus.0.limbs@, n);
+    }
+//@-
+        // `R mod modulus` where `R = 2^BITS`.
+        // Represents 1 in Montgomery form.
+        let one = Uint::MAX().rem(modulus.as_nz_ref()).wrapping_add(&Uint::ONE());
+//@+
+    proof {
+        lemma_mod_bound(r - 1, m);
+        lemma_small_mod(((r - 1) % m + 1) as nat, r as nat);
+        lemma_one_cong(one.v(), m, n);
+        // r2: the wide modulus is m, the wide remainder is < m < R, so its low half is the remainder itself
+        assert(0 * r == 0);
+        lemma_mod_bound(one.v() * one.v(), m);
+        lemma_small_mod(((one.v() * one.v()) % m) as nat, r as nat);
+        lemma_r2_def(one.v(), m, r);
+    }
+//@-
+        // `R^2 mod modulus`, used to convert integers to Montgomery form.
+        let r2 = one
+            .square()
+            .rem(&NonZero(modulus.0.concat(&Uint::ZERO())))
+            .split()
+            .0;
+//@+
+    proof {
+        assert(r2.v() == (r * r) % m);
+        lemma_mod_bound(r * r, m);
+    }
+//@-
+        // The modular inverse should always exist, because it was ensured odd above, which also ensures it's non-zero
+        let inv_mod = modulus
+            .as_ref()
+            .inv_mod2k_vartime(Word::BITS)
+            .expect("modular inverse should exist");
+//@+
+    proof {
+        lemma_pow2_64();
+        lemma_small_mod(1, B() as nat);
+    }
+//@-
+        let mod_neg_inv = Limb(Word::MIN.wrapping_sub(inv_mod.limbs[0].0));
+//@+
+    proof {
+        lemma_val_low(modulus.0.limbs@, n); lemma_val_low(inv_mod.limbs@, n);
+        lemma_neg_inv_def(mod_neg_inv.0 as int, inv_mod.limbs@[0].0 as int, inv_mod.v(), modulus.0.limbs@[0].0 as int, m);
+    }
+//@-
+        let mod_leading_zeros = modulus.as_ref().leading_zeros();
+//@+
+    let ghost z = mod_leading_zeros as int;
+//@-
+        let mod_leading_zeros = ConstChoice::from_u32_lt(mod_leading_zeros, Word::BITS - 1)
+            .select_u32(Word::BITS - 1, mod_leading_zeros);
+//@+
+    proof {
+        if z >= 63 { lemma_p2_mono((64 * LIMBS - z) as nat, (64 * LIMBS - 63) as nat); }
+        assert(r2.v() * r2.v() < m * r) by (nonlinear_arith) requires 0 <= r2.v() < m, m < r;
+    }
+//@-
+        // `R^3 mod modulus`, used for inversion in Montgomery form.
+        let r3 = montgomery_reduction(&r2.square_wide(), &modulus, mod_neg_inv);
+//@+
+    proof { lemma_r3_def(r3.v(), r2.v(), m, n); }
+//@-
+        Self {
+            modulus,
+            one,
+            r2,
+            r3,
+            mod_neg_inv,
+            mod_leading_zeros,
+        }
+    }
+}
 //@@ end
 
 } // verus!
